@@ -463,7 +463,8 @@ def run(ck):
                "tree evaluated by pint, by the model in Coq (both leaf assignments), and with every leaf re-expressed in a "
                "random compatible unit (prefix, other unit of the dimension, extra dimensionless factor: radian percent count "
                "ppm ... — the list is in the evidence); operands snapshotted around every application; ndarray (object dtype, exact) targets for the "
-               "in-place twins (incl. dimensionless targets not in root units with bare operands); ==, <, <=, >, >=; every bundled context "
+               "in-place twins (incl. dimensionless targets not in root units with bare operands); ==, <, <=, >, >= (also with operands written in "
+               "offset units — kelvin <-> degC, degF, degRe — against the ordering of the root values, and a < b <=> b > a); every bundled context "
                "ACTIVE (dimension mismatch across the dimensions it relates must still raise; same-dimension results unchanged); "
                "float / Decimal / int magnitudes with tolerance (labelled tests); Python-int magnitudes in the Fraction registry with EXACT "
                "comparison where a float result is itself a failure; int magnitudes in the Decimal registry; malformed "
@@ -1064,6 +1065,95 @@ def run(ck):
         ck.case(key=("cmp", tuple(sorted(d)), show_spec(b) if b[0] == "N" else tuple(sorted(b[2]))))
         ck.count("cmp/eq pairs")
 
+    # ---------------- stream 4b: ordering / equality when an operand is written in an OFFSET unit (kelvin <-> degC, degF, ...)
+    offs = []
+    seen_o = set()
+    for k_, d_ in ureg._units.items():
+        if d_.name in seen_o:
+            continue
+        seen_o.add(d_.name)
+        cv = d_.converter
+        if not d_.is_multiplicative and type(cv).__name__ == "OffsetConverter" and exact(cv.scale) and exact(cv.offset):
+            ref = regk.ucd(d_.reference)
+            try:
+                fr = W.fac(ref)
+            except Skip:
+                continue
+            if fr:
+                offs.append((d_.name, F(cv.scale), F(cv.offset), fr, frozenset(W.dim(ref).items())))
+    ck.extra["offset_units"] = [o[0] for o in offs]
+
+    def write_abs(root, how):
+        """the quantity whose value in root units is `root`, written in a multiplicative or an offset unit"""
+        if how[0] == "M":
+            return ("Q", root / W.fac(how[1]), how[1])
+        name, sc, of, fr, _ = how[1]
+        return ("Q", (root / fr - of) / sc, {name: F(1)})
+
+    def pick_writing(dimkey_):
+        r = rng.random()
+        cands = [o for o in offs if o[4] == dimkey_]
+        if r < 0.55 and cands:
+            return ("O", rng.choice(cands))
+        # delta_ units are temperature DIFFERENCES: not the same physical quantity as an absolute temperature (C06)
+        u_ = rng.choice([x for x in W.classes[dimkey_] if not x.startswith("delta_")])
+        if rng.random() < 0.3 and u_ in W.prefixable:
+            u_ = rng.choice(PREFIXES) + u_
+        return ("M", {u_: F(1)})
+
+    off_n = N(300, 2500)
+    off_model = N(50, 600)
+    for i in range(off_n if offs else 0):
+        dk = rng.choice(offs)[4]
+        ra = F(rng.randint(0, 6000), 10)
+        rb = ra + F(rng.randint(-60, 60), rng.choice([1, 2, 10])) if rng.random() < 0.6 else F(rng.randint(0, 6000), 10)
+        wa, wb, wa2, wb2 = pick_writing(dk), pick_writing(dk), pick_writing(dk), pick_writing(dk)
+        try:
+            a, b, a2, b2 = write_abs(ra, wa), write_abs(rb, wb), write_abs(ra, wa2), write_abs(rb, wb2)
+        except Skip:
+            continue
+        kinds = wa[0] + wb[0] + "~" + wa2[0] + wb2[0]
+        names = sorted({w[1][0] for w in (wa, wb, wa2, wb2) if w[0] == "O"})
+        for name in ["eq"] + list(CMPS):
+            def go2(x, y):
+                X, Y = W.mk(x), W.mk(y)
+                sx, sy = snap(X), snap(Y)
+                try:
+                    r_ = (X == Y) if name == "eq" else CMPS[name](X, Y)
+                    o = ("ok", bool(r_))
+                except Exception as e:      # noqa: BLE001
+                    o = ("err", errclass(e))
+                if not (snap_eq(sx, snap(X)) and snap_eq(sy, snap(Y))):
+                    fail(f"frame:{name}:offset", f"{name} modified an operand", {"a": show_spec(x), "b": show_spec(y)})
+                return o
+            truth = ("ok", (ra == rb) if name == "eq" else CMPS[name](ra, rb))
+            o1, o2 = go2(a, b), go2(a2, b2)
+            for (x, y, o) in ((a, b, o1), (a2, b2, o2)):
+                if o != truth:
+                    fail(f"cov:{'eq' if name == 'eq' else 'cmp'}:offset-unit",
+                         f"{show_spec(x)} {name} {show_spec(y)} is {o[1]}, but the same two quantities written as {show_spec(a2 if x is a else a)} , "
+                         f"{show_spec(b2 if y is b else b)} (root values {ra} , {rb}) give {truth[1]}",
+                         {"kind": "cmp-offset", "op": name, "a": show_spec(x), "b": show_spec(y), "root_values": [str(ra), str(rb)], "offset_units": names})
+            if name != "eq":
+                # reflected agreement: a < b  <=>  b > a
+                sw = {"lt": "gt", "le": "ge", "gt": "lt", "ge": "le"}[name]
+                o3 = ("ok", None)
+                try:
+                    o3 = ("ok", bool(CMPS[sw](W.mk(b), W.mk(a))))
+                except Exception as e:      # noqa: BLE001
+                    o3 = ("err", errclass(e))
+                if o3 != o1:
+                    fail("reflected-agree:cmp:offset-unit", f"{show_spec(a)} {name} {show_spec(b)} is {o1[1]} but {show_spec(b)} {sw} {show_spec(a)} is {o3[1]}",
+                         {"kind": "cmp-offset", "op": name, "a": show_spec(a), "b": show_spec(b)})
+                if i < off_model:
+                    try:
+                        for (x, y, o) in ((a, b, o1), (a2, b2, o2)):
+                            res = f"(Ok {coq_bool(o[1])})" if o[0] == "ok" else "(Err EOther)"
+                            add_case(f"KCmp {COQ_CMP[name]} (Qn {coq_mag(x[1])} {coq_uc(x[2])}) {coq_operand(y)} {res}", {name: [show_spec(x), show_spec(y)], "pint": o})
+                    except Skip:
+                        pass
+        ck.case(key=("cmp-offset", kinds, tuple(names), str(ra), str(rb)))
+        ck.count("cmp/eq with offset units:" + kinds)
     lap('cmp')
     # ---------------- stream 5: oracles on the statement itself at every + / - node of fresh pairs
     rule_n = N(500, 2500)
